@@ -603,7 +603,12 @@ func (g *genr) augment(m *Module, set *Set) {
 		switch p.Kw {
 		case "container", "list", "choice", "case", "input", "output", "notification":
 			cands = append(cands, p)
-		case "leaf", "rpc":
+		case "rpc", "action":
+			// the (possibly implicit) input or output of an rpc or action
+			if g.chance(0.5) {
+				cands = append(cands, p)
+			}
+		case "leaf":
 			if g.bad(0.1) {
 				cands = append(cands, p)
 			}
@@ -614,8 +619,23 @@ func (g *genr) augment(m *Module, set *Set) {
 	case len(cands) > 0 && !(g.bad(0.08)):
 		p := cands[g.r.Intn(len(cands))]
 		target = pathString(p, pfx, false)
-		if p.Kw == "rpc" {
-			target += "/" + pfx + ":" + g.pick([]string{"input", "output"})
+		if p.Kw == "rpc" || p.Kw == "action" {
+			if g.bad(0.1) {
+				target += "/" + pfx + ":bogus"
+			} else {
+				target += "/" + pfx + ":" + g.pick([]string{"input", "output"})
+			}
+		}
+		own := m
+		if m.Sub {
+			own = m.Owner
+		}
+		if t == own && g.chance(0.15) {
+			// the first step without prefix: the current module
+			target = "/" + strings.TrimPrefix(target, "/"+pfx+":")
+		}
+		if g.bad(0.05) {
+			target = "/zz:" + strings.TrimPrefix(target, "/"+pfx+":")
 		}
 	case g.bad(0.3):
 		target = "/" + pfx + ":nosuch"
